@@ -381,6 +381,26 @@ def run(pid, tier, seed, gate, replay=None):
                                                oracle=dict(failed_at=o2[0], what=o2[1]), broken=None,
                                                failing_cases=len(unknown)))
         violations.append(dict(replay=rp, what=o2[1]))
+    # correspondence: the extracted one-key hybrid model against the implementation on deterministic histories
+    corr = None
+    if pid in ("C01", "C12", "C15") and not replay:
+        from . import hybcorr as X
+        C.build_ocaml()
+        crng = random.Random(seed * 31 + 5)
+        n = 3000 if tier == "thorough" else 300
+        cs = [X.gen(crng, crng.choice([8, 16, 30, 50])) for _ in range(n)]
+        cres = X.check(cs)
+        cbad = [(sc, ls, m) for sc, ls, m, sk in cres if m]
+        corr = dict(scripts=len(cs), skipped=sum(1 for r in cres if r[3]), mismatches=len(cbad), timing_dependent_reruns=len(X.FLAKY))
+        if cbad and not unknown:
+            sc, ls, m = min(cbad, key=lambda t: len(t[0]))
+            # a disagreement is a broken correspondence; it is a failing input if the property oracle rejects the history too
+            o = H.ORACLES[pid](sc.split("\n")[0], ls)
+            rp = C.write_replay(pid, seed, "corr", dict(property=pid, stream="hybridsim/one-key model", script=sc, impl_obs=ls,
+                                                       oracle=(dict(failed_at=o[0], what=o[1]) if o else None),
+                                                       broken=None if o else f"correspondence hybridsim/model: {m[1]} (op {m[0]}); "
+                                                                              f"{len(cbad)} of {len(cs)} histories differ"))
+            violations.append(dict(replay=rp, what=(o[1] if o else f"model and implementation differ: {m[1]}"), nofail=not o))
     if gate.get("failed") and not unknown:
         rp = C.write_replay(pid, seed, "gate", dict(property=pid, oracle=None, broken=f"Coq gate for Props/{pid}.v: {gate['failed']}",
                                                    note=f"oracle search over {len(scripts)} histories found no failing input"))
@@ -392,6 +412,7 @@ def run(pid, tier, seed, gate, replay=None):
         rule=rule + "; non-trivial = at least one entry write, disk hit, crash image or fault; distinct = SHA-1 of the script",
         samples=[dict(script=scripts[k].strip().split("\n")[:14], impl=[l[:200] for l in results[k][1][:8]])] if results else [],
         traces_validated_against_impl=len(scripts) - len(failing),
-        input_distribution=dict(scripts=len(scripts), situations=flags, known_findings_hit=sorted(known_seen)),
+        input_distribution=dict(scripts=len(scripts), situations=flags, known_findings_hit=sorted(known_seen),
+                                model_correspondence=corr),
         exhaustive=False)
     return cov, violations, ASSUME
